@@ -13,13 +13,14 @@ use crate::simalloc::{Config, Fill, Placement};
 pub fn draw_cfg(seed: u64) -> Config {
     let mut r = Rng::fork(seed, STREAM_ALLOC);
     Config {
-        placement: match r.below(12) {
+        placement: match r.below(13) {
             0 => Placement::Natural16,
             1..=3 => Placement::MinAlign,
             4..=5 => Placement::ReuseLifo,
             6..=7 => Placement::RandomGap,
             8..=9 => Placement::PageEnd,
-            _ => Placement::Packed,
+            10 => Placement::Packed,
+            _ => Placement::Straddle4G,
         },
         fill: match r.below(8) {
             0 => Fill::Zero,
@@ -249,6 +250,21 @@ fn gen_c06(r: &mut Rng) -> Vec<Op> {
         }
         let c = if repeat_bias > 0 && r.below(4) < repeat_bias { favourite.unwrap() } else { *r.pick(&ctors) };
         ops.push(construct_op(OpKind::MbiSet, b, c, r, &knobs));
+    }
+    // rare: one tag of more than a megabyte (a real initrd-sized command line
+    // does not exist, but a DHCP blob, an ELF table or a vendor tag of that
+    // size is legal) — total sizes beyond 2^20
+    if r.chance(1, 150) {
+        let c = *r.pick(&[Ctor::Network, Ctor::Custom, Ctor::ElfSections, Ctor::Smbios]);
+        let len = *r.pick(&[(1usize << 20) - 40, (1 << 20) + 24, 1_500_000, 2_400_001]);
+        let mut op = construct_op(OpKind::MbiSet, 0, c, r, &GenKnobs { max_len: 24, precondition_rate: 0 });
+        let fill = r.below(200) as u8;
+        op.b[0] = (0..len).map(|i| (i as u8).wrapping_mul(31).wrapping_add(fill)).collect();
+        if c == Ctor::Custom {
+            op.a[ctor::ARG0] = 0x4d42_0000 + r.below(4);
+        }
+        let at = r.below(ops.len() as u64 + 1).max(n_builders) as usize;
+        ops.insert(at.min(ops.len()), op);
     }
     let mut next = 10u64;
     for b in 0..n_builders {
